@@ -35,6 +35,18 @@ func (Minimal) Gap(c GapClass) string {
 	return ""
 }
 
+// Broken puts exactly one line break into every gap that admits one (after a binary operator, inside brackets ...):
+// every operand starts on the line directly below its operator.
+type Broken struct{}
+
+func (Broken) Gap(c GapClass) string {
+	switch c {
+	case GS, GN:
+		return "\n"
+	}
+	return ""
+}
+
 // Spaced puts one blank in every gap (and "\n" between statements).
 type Spaced struct{}
 
